@@ -33,7 +33,7 @@ REPORT = ['modules', 'programs_built', 'evaluations', 'cases_run', 'encode_compa
           'decode_comparisons', 'field_checks', 'corpus_inputs', 'corpus_valid', 'corpus_hostile_accepted', 'sanitizer_reports',
           'generator_rejected', 'generator_rejected_probe', 'probe_modules_accepted', 'gcc_warnings', 'newer_version_cases',
           'modules_with_eight_additions']
-TIMEOUT = {'quick': 2400, 'thorough': 14000}
+TIMEOUT = {'quick': 2400, 'thorough': 5400}
 
 
 def floors(codec):
